@@ -73,7 +73,7 @@ PROPS.update({
                 mc_version('triples', ['InvTransitive'], 'MC_Triples', thorough_size='small')],
         gens=[dict(scenario='vorder', n=dict(quick=6000, thorough=100000))],
         events=['vcmp', 'vsort'],
-        rule='cases = every ordered pair of the version universe of MC_Version (3 or 6 tuples x all prerelease lists of length <= 2 over {0,2,10,a,B,a-,a0}) (exhaustive) + seeded pairs and lists (<= 12) with components up to MAX_SAFE_INTEGER, numeric identifiers up to 2^64-1, identifier lists up to 6, confusable identifiers, build metadata; distinct = distinct case text',
+        rule='cases = every ordered pair of the version universe of MC_Version (3 or 6 tuples x all prerelease lists of length <= 2 over {0,2,10,a,B,a-,a0,1a,-}) (exhaustive) + seeded pairs and lists (<= 12) with components up to MAX_SAFE_INTEGER, numeric identifiers up to 2^64-1, identifier lists up to 6, confusable identifiers, build metadata; distinct = distinct case text',
         exhaustive_models=True, assumptions=COMMON_ASSUME),
     'C05': dict(models=VTEXT_MODELS, gens=[dict(scenario='vtext', n=dict(quick=12000, thorough=120000))],
                 events=['vparse'], rule=VTEXT_RULE, exhaustive_models=True, assumptions=COMMON_ASSUME, chunks=14),
@@ -90,13 +90,15 @@ PROPS.update({
         rule='cases = all 6561 ordered pairs of {0,1,2}^3 x {release, -0, -a} (exhaustive) + seeded pairs with large components, long tags and build metadata; distinct = distinct case text',
         exhaustive_models=True, assumptions=COMMON_ASSUME),
     'C18': dict(
-        models=[], gens=[dict(scenario='vtuples', n=dict(quick=12000, thorough=120000))],
+        models=[dict(name='MC_Tuple_position', module='MC_Tuple', constants=dict(Mode='position', Emit=True), invariants=['InvTupleRoundTrip']),
+                dict(name='MC_Tuple_grid', module='MC_Tuple', constants=dict(Mode='grid', Emit=True), invariants=['InvTupleRoundTrip'])],
+        gens=[dict(scenario='vtuples', n=dict(quick=12000, thorough=120000))],
         events=['vtuple'],
         rule='cases = for u8 and i8 every non-negative value in every position of triples and quadruples (others 0 or drawn from a boundary grid), the full product of a 5-value boundary grid for all ten integer types, and seeded random values pushed through every type that can hold them; judged by TLC against FromTuple3/FromTuple4 and PrintVersion; distinct = distinct (type, values)',
-        exhaustive_models=False, assumptions=COMMON_ASSUME + ['no bounded TLC model enumerates tuple conversions (the conversion has no cross-field logic); TLC is the judge of every recorded conversion']),
+        exhaustive_models=True, assumptions=COMMON_ASSUME + ['the full product 128^4 / 256^4 of the 8-bit types is not enumerated: per-position exhaustiveness x boundary fills, plus boundary-grid products for all ten types (the conversion has no cross-field logic)']),
 })
 
-SYNTAX_INVS = ['InvFoldMeans', 'InvUnsat', 'InvOrder', 'InvPrintRoundTrip']
+SYNTAX_INVS = ['InvFoldMeans', 'InvUnsat', 'InvOrder', 'InvPrintRoundTrip', 'InvParseRender']
 def mc_syntax(mode, name, quick_of, size='small', thorough_size=None, tiers=('quick', 'thorough'), caseop='rparse'):
     return dict(name=name, module='MC_Syntax', constants=dict(Mode=mode, Size=size, Emit=True, CaseOp=caseop, Slice='SEED', Of=quick_of),
                 thorough=dict(Of=1, Size=thorough_size or size), invariants=SYNTAX_INVS, tiers=tiers)
@@ -145,7 +147,7 @@ PROPS.update({
         exhaustive_models=True, assumptions=COMMON_ASSUME + ['the `*` shape (both sides unbounded) is produced only by Range::any(), which is outside the quantifier of C13; print events on it are not judged'],
         probe_cap=40, chunks=14),
     'C14': dict(
-        models=[mc_syntax('single', 'MC_Syntax_single', 2), mc_syntax('pairs', 'MC_Syntax_pairs', 16)],
+        models=[mc_syntax('single', 'MC_Syntax_single', 2), mc_syntax('pairs', 'MC_Syntax_pairs', 16), mc_syntax('alts', 'MC_Syntax_alts', 16)],
         gens=[dict(scenario='rtext', n=dict(quick=4000, thorough=60000))],
         then=['maxsat'], events=['maxsat'],
         rule='cases = parsed range texts (MC_Syntax single comparators and pairs, seeded random texts) x the probe versions of the text as an unsorted list of up to 24 versions with duplicates and build-only variants, the same list reversed and rotated, and the empty list; the returned reference is identified by pointer identity; distinct = distinct case text',
@@ -165,16 +167,48 @@ PROPS.update({
 PROPS.update({
     'C06': dict(
         models=[dict(name='MC_Tokens', module='MC_Tokens', constants=dict(MaxLen=3, Emit=True, Slice=0, Of=1), thorough=dict(MaxLen=4, Slice='SEED', Of=2),
-                     invariants=['InvSpecTotal']),
+                     invariants=['InvSpecTotal', 'InvRangeTextTotal']),
                 dict(name='MC_VText_a', module='MC_VText', constants=dict(SymbolSet='a', MaxLive=5, MaxExtra=1, Emit=True), thorough=dict(MaxLive=6),
                      invariants=VTEXT_INVS, case_extra={'op': 'soup'})],
-        gens=[dict(scenario='soup', n=dict(quick=8000, thorough=150000)), dict(scenario='timing', n=dict(quick=65536, thorough=262144)),
+        gens=[dict(scenario='soup', n=dict(quick=8000, thorough=150000)), dict(scenario='timing', n=dict(quick=16384, thorough=65536)),
               dict(scenario='sessions', n=dict(quick=1000, thorough=20000)), dict(scenario='ranges', n=dict(quick=1500, thorough=30000))],
         events=['soup', 'timing', 'vparse', 'rparse', 'isect', 'diff', 'any', 'all', 'minv', 'print', 'panic'],
         rule='cases = every string of up to 3 (thorough: 4, half of the first tokens) tokens over a 26-token alphabet covering every token class (digits, numbers at and above MAX_SAFE_INTEGER and 2^64, . - + * x v ^ ~ > < = | || blank tab newline a e-acute ` - ` 1.2.3) and every string of the version-text model (exhaustive); + every operator form on numbers at the limits, lengths 255-1024 ending in 1-4 byte characters, damaged range texts and versions, token soup (seeded); each string goes through both parsers and every operation is applied to what they return, against itself and the five most recent values, and to the results; + sessions feeding results back; + the same token repeated to n..8n bytes for the time rule; build has overflow checks and debug assertions on; a panic, abort or time-out is a violation; distinct = distinct case text',
         exhaustive_models=True, chunks=14,
-        assumptions=COMMON_ASSUME + ['absence of panics is established only on the explored inputs', 'the linear-time clause is a measured budget (50 ms + 100 us/byte; 8x input <= 30x time once a run takes 5 ms), the only wall-clock dependent clause of any check']),
+        assumptions=COMMON_ASSUME + ['absence of panics is established only on the explored inputs', 'the linear-time clause is a measured budget (50 ms + 20 us/byte; r x input (r >= 4) <= 4r x time + 20 ms), the only wall-clock dependent clause of any check']),
 })
+
+# C17 also covers Range::parse errors
+PROPS['C17']['models'] = VTEXT_MODELS + [mc_syntax('alts', 'MC_Syntax_alts', 16)]
+PROPS['C17']['gens'] = PROPS['C17']['gens'] + [dict(scenario='rgarbage', n=dict(quick=3000, thorough=40000)), dict(scenario='rtext', n=dict(quick=1500, thorough=20000))]
+PROPS['C17']['events'] = ['vparse', 'rparse']
+PROPS['C17']['rule'] += '; + range texts: `||` pairs and garbage tokens of MC_Syntax, seeded garbage-only texts (multi-line, multi-byte, numbers above the limit) whose every token is unparseable (NoValidRanges), seeded random range texts'
+
+PROPS['C07']['apalache'] = ['LemmaIntersect']
+PROPS['C08']['apalache'] = ['LemmaDifference']
+PROPS['C09']['apalache'] = ['LemmaOverlap']
+PROPS['C10']['apalache'] = ['LemmaAllowsAll']
+
+# thorough tier only: two-alternative operands in the interval model (left operand 2 alternatives over a reduced universe),
+# deeper sessions by simulation
+def mc_interval2(invs):
+    return dict(name='MC_Interval_alts2', module='MC_Interval', constants=dict(Universe='tiny', Alts=2, UseImpl=False, Emit=True),
+                invariants=invs, tiers=('thorough',))
+for _p, _invs in (('C07', ['InvIntersect', 'InvIntersectCommutes']), ('C08', ['InvDifference']), ('C09', ['InvAllowsAny']),
+                  ('C10', ['InvAllowsAll']), ('C11', ['InvMinVersion'])):
+    PROPS[_p]['models'].append(mc_interval2(_invs))
+PROPS['C15']['models'].append(dict(name='MC_Api_deep', module='MC_Api', constants=dict(MaxOps=3, Alts=1, Emit=True, Slice='SEED', Of=64, Of2=16),
+                                   invariants=['InvIdeal', 'InvShapes'], tiers=('thorough',)))
+
+# C01 on texts that were NOT rendered from a known tree: judged through spec/RangeText.tla (ParseRangeText)
+PROPS['C01']['models'].append(dict(name='MC_Tokens', module='MC_Tokens', constants=dict(MaxLen=3, Emit=True, Slice='SEED', Of=2), thorough=dict(MaxLen=3, Of=1),
+                                   invariants=['InvSpecTotal', 'InvRangeTextTotal'], case_extra={'op': 'rparse', 'dst': 1}))
+PROPS['C01']['gens'].append(dict(scenario='soup', n=dict(quick=3000, thorough=50000), case_extra={'op': 'rparse', 'dst': 1}))
+PROPS['C01']['rule'] += '; + every string of up to 3 tokens over the 26-token alphabet of MC_Tokens and seeded damaged texts / token soup, whose syntax tree is computed from the bytes by spec/RangeText.tla (undetermined texts carry no obligation)'
+
+PROPS['C12']['gens'] = PROPS['C12']['gens'] + [dict(scenario='vbuilt', n=dict(quick=4000, thorough=60000))]
+PROPS['C12']['events'] = ['vparse', 'vbuilt']
+PROPS['C12']['rule'] += '; + seeded versions built directly from canonical identifiers (components up to MAX_SAFE_INTEGER, numeric identifiers up to 2^64-1, hyphen-only and mixed identifiers, up to 4 prerelease and 3 build identifiers)'
 
 _LEVEL = ('TLC checks the design of the operation (spec/Interval.tla) against the declarative statement, pointwise on a complete '
           'probe set, for every operand pair of the bounded universe; each enumerated pair and thousands of seeded large/irregular '
@@ -199,8 +233,8 @@ MANIFEST_TEXT.update({
     'C12': dict(level=_LEVEL_V, note=_NOTE_V, design_ref='DESIGN.md section 4 (C12)', technique='TLA+ model checking (TLC) of print/parse round trip on the parser machine + trace validation of recorded print/re-parse/serde calls'),
     'C16': dict(level=_LEVEL_V, note=_NOTE_V + ' The oracle Diff is a transcription of node-semver 7.x functions/diff.js.', design_ref='DESIGN.md section 4 (C16)', technique='TLA+ model checking (TLC) of Diff + trace validation of recorded Version::diff calls'),
     'C17': dict(level=_LEVEL_V, note=_NOTE_V, design_ref='DESIGN.md section 4 (C17)', technique='TLA+ byte-level parser state machine (first failure kind and offset) + trace validation of recorded parse errors and their accessors'),
-    'C18': dict(level='Every recorded tuple conversion (per-position exhaustive for the 8-bit types, boundary grid products and seeded values for all ten integer types) is judged by TLC against FromTuple3/FromTuple4/PrintVersion of spec/Version.tla. No bounded TLC model enumerates the inputs (the conversion has no cross-field logic); the specification is the judge, not the generator.',
-                note=_NOTE_V, design_ref='DESIGN.md section 4 (C18)', technique='trace validation (TLC) of recorded From<tuple> conversions against the TLA+ definition'),
+    'C18': dict(level='TLC enumerates (MC_Tuple) every non-negative u8/i8 value in every position of triples and quadruples and the full product of a boundary grid for all ten integer types, checks that the denoted version prints to a canonical version text denoting the same fields, and prints each tuple as a case; every case plus seeded random values pushed through every type that can hold them is converted by the real crate and judged by TLC against FromTuple3/FromTuple4/PrintVersion and the parse of the dotted string.',
+                note=_NOTE_V, design_ref='DESIGN.md section 4 (C18)', technique='TLA+ model checking (TLC) of tuple -> version -> text round trip + trace validation of recorded From<tuple> conversions'),
 })
 _LEVEL_R = ('TLC checks on every syntax tree of the bounded model that the crate\'s representation (one interval per alternative plus the interval prerelease gate) '
             'can express npm\'s documented meaning exactly (fold == comparator-list semantics, pointwise on the probe set), that unsatisfiable texts are '
